@@ -46,6 +46,10 @@ History of misses and what was strengthened:
   equal). Added: (C12) a rejected set_preference repeated immediately must be rejected again; (C08, C10) the
   preference values a session holds must be accepted by the fresh reference session (`state-not-reproducible`);
   (C08) directed scenarios that repeat every failing call twice before the recovery check. Now detected by C08 and C12.
+- `C14-separators-computed-into-old-table` was first missed by C14: the probe expression had no numbers and the
+  preference snapshot was not part of a probe round. Added to every probe round: a second part on an expression with
+  separator-bearing numbers (set_mathml, speech, braille; compared with the pre-fault round and with its own fresh
+  session) and the full preference snapshot. Now detected.
 - The first C14 run against `C14-nested-include-times-dropped` reported a false class first (an injected read error
   on the always-failing probe for `xx.zip`); injections are now only placed on reads that would succeed.
 - A stale-build problem was found while testing these changes (cargo reused an artifact of the same path after a
